@@ -1,5 +1,5 @@
 // One (kind, parameters, input set, object state, scenario) case per process.
-// usage: dict_driver --kind K --p1 N --p2 N --p3 N --input FILE --state fresh|gen|own|resaved|concat --opt O
+// usage: dict_driver --kind K --p1 N --p2 N --p3 N --input FILE --state fresh|gen|own|resaved|concat|survivor|cold|coldgen (the last two with --img-in FILE) --opt O
 //                    --ops a,b,c --skip a,b --seed N --out FILE [--memalloc N] [--img-out FILE] [--tdump FILE] [--big]
 #include "dict_ops.h"
 #include "dict_hist.h"
@@ -168,7 +168,7 @@ static void op_bad_tags(Ctx &c, const std::string &img_in, uint64_t from, uint64
 }
 
 int main(int argc, char **argv) {
-  std::string kind_s, input, state = "fresh", out, ops, skip, imgout, tdump;
+  std::string kind_s, input, state = "fresh", out, ops, skip, imgout, imgin, tdump;
   Ctx c;
   uint64_t seed = 1;
   long memalloc = 0, qbs = -1;
@@ -190,6 +190,7 @@ int main(int argc, char **argv) {
     else if (a == "--out") out = val();
     else if (a == "--memalloc") memalloc = atol(val().c_str());
     else if (a == "--img-out") imgout = val();
+    else if (a == "--img-in") imgin = val();
     else if (a == "--tdump") tdump = val();
     else if (a == "--big") c.big = true;
     else if (a == "--qbs") qbs = atol(val().c_str());
@@ -240,33 +241,71 @@ int main(int argc, char **argv) {
   strs.clear();
 
   // ---- build
-  obs::crumb("C07", "build", std::string(KIND_NAMES[c.kind]) + " n=" + std::to_string(c.m.n));
-  StringDictionary *fresh = build_dict(c.kind, c.P, c.m);
+  // "cold" / "coldgen": this process builds nothing; it loads (own / generic loader) an image that another process wrote to --img-in
+  bool cold = state == "cold" || state == "coldgen";
+  std::string lstate = state == "cold" ? "own" : state == "coldgen" ? "gen" : state;
+  StringDictionary *fresh = NULL;
+  if (!cold) {
+    obs::crumb("C07", "build", std::string(KIND_NAMES[c.kind]) + " n=" + std::to_string(c.m.n));
+    fresh = build_dict(c.kind, c.P, c.m);
 #ifdef LIBCSD_VERIF
-  obs::count("growth_n", (long)libcsd_verif::realloc_count().load());
+    obs::count("growth_n", (long)libcsd_verif::realloc_count().load());
 #endif
-  obs::count("built");
+    obs::count("built");
+  }
   std::string img;
   if (state == "fresh") {
     c.d = fresh;
-  } else {
-    obs::crumb("C06,C08", "save", "save for reload");
+  } else if (state == "survivor") {
+    // the built object stays; a loaded copy and a second built copy live next to it and are destroyed before it is queried
+    obs::crumb("C06,C08", "save", "save for the short-lived copy");
     img = save_image(fresh);
     emit_image("built", img);
-    if (!imgout.empty()) { std::ofstream f(imgout, std::ios::binary); f.write(img.data(), img.size()); }
-    obs::crumb("C07", "destroy", "delete built object");
-    delete fresh;
-    fresh = NULL;
-    if (state == "gen") {
+    std::stringstream ss(img, std::ios::in | std::ios::binary);
+    obs::crumb("C06", "load", "own loader opt=" + std::to_string(c.opt) + " (short-lived copy)");
+    StringDictionary *l = load_own(c.kind, ss, c.opt);
+    obs::count("eval.load");
+    if (!l) obs::violation("C06", "load", "load-failed", "own", "own loader returned NULL for a valid image");
+    else {
+      obs::crumb("C06", "extract", "probe of the short-lived copy");
+      uint len = 0;
+      uchar *e = l->extract(1, &len);
+      if (!e) obs::violation("C06", "extract", "missing", "survivor", "short-lived loaded copy: extract(1) is NULL");
+      else delete[] e;
+      obs::crumb("C07", "destroy", "delete short-lived loaded copy");
+      delete l;
+    }
+    obs::crumb("C07", "build", "second built copy");
+    StringDictionary *b2 = build_dict(c.kind, c.P, c.m);
+    obs::crumb("C07", "destroy", "delete second built copy");
+    delete b2;
+    c.d = fresh;
+    img.clear();
+  } else {
+    if (cold) {
+      std::ifstream f(imgin, std::ios::binary);
+      if (!f.good()) { fprintf(stderr, "cannot read image\n"); obs::line("E\tmissing-image\t" + imgin); obs::flush(); return 2; }
+      img.assign((std::istreambuf_iterator<char>(f)), std::istreambuf_iterator<char>());
+      obs::count("cls.cold_load");
+    } else {
+      obs::crumb("C06,C08", "save", "save for reload");
+      img = save_image(fresh);
+      emit_image("built", img);
+      if (!imgout.empty()) { std::ofstream f(imgout, std::ios::binary); f.write(img.data(), img.size()); }
+      obs::crumb("C07", "destroy", "delete built object");
+      delete fresh;
+      fresh = NULL;
+    }
+    if (lstate == "gen") {
       std::stringstream ss(img, std::ios::in | std::ios::binary);
-      obs::crumb("C06", "load", "generic loader opt=" + std::to_string(c.opt));
+      obs::crumb("C06", "load", "generic loader opt=" + std::to_string(c.opt) + (cold ? " in a process that built nothing" : ""));
       c.d = StringDictionary::load(ss, c.opt);
       obs::count("eval.load");
       if (!c.d) { obs::violation("C06", "load", "load-failed", "generic", "generic loader returned NULL for a valid image"); }
       else if (!dyn_type_ok(c.kind, c.d)) obs::violation("C06", "load", "wrong-type", "generic", "generic loader returned another kind");
-    } else if (state == "own" || state == "resaved") {
+    } else if (lstate == "own" || lstate == "resaved") {
       std::stringstream ss(img, std::ios::in | std::ios::binary);
-      obs::crumb("C06", "load", "own loader opt=" + std::to_string(c.opt));
+      obs::crumb("C06", "load", "own loader opt=" + std::to_string(c.opt) + (cold ? " in a process that built nothing" : ""));
       c.d = load_own(c.kind, ss, c.opt);
       obs::count("eval.load");
       if (!c.d) obs::violation("C06", "load", "load-failed", "own", "own loader returned NULL for a valid image");
@@ -291,7 +330,7 @@ int main(int argc, char **argv) {
         c.d = load_own(c.kind, s2, c.opt);
         if (!c.d) obs::violation("C08", "resave", "load-failed", identical ? "identical" : "different", "re-saved image does not load: " + first_diff(img, img2));
       }
-    } else if (state == "concat") {
+    } else if (lstate == "concat") {
       // img(A) || img(A) || canary: each own loader must consume exactly its image
       std::string canary("\xAA\xBB\xCC\xDD\xEE\xFF\x11\x22\x33\x44\x55\x66\x77\x88\x99\x01", 16);
       std::string cat = img + img + canary;
@@ -326,8 +365,9 @@ int main(int argc, char **argv) {
   }
   obs::count("state_" + state);
   // a loaded dictionary that answers wrongly also violates the persistence round trip; a re-saved one the re-save clause
-  if (state == "own" || state == "gen" || state == "concat") obs::extra_props = ",C06";
+  if (lstate == "own" || lstate == "gen" || lstate == "concat") obs::extra_props = ",C06";
   if (state == "resaved") obs::extra_props = ",C06,C08";
+  if (state == "survivor") obs::extra_props = ",C14";   // another object's life cycle changed this object's answers
   strncpy(obs::extra_props_c, obs::extra_props.c_str(), sizeof(obs::extra_props_c) - 1);
 
   if (c.d) {
